@@ -65,10 +65,43 @@ def run(ctx, eng):
         if not el or el[0] != ('p', 'first_frame'):
             bad.append('first frame is not first')
             continue
+        # which slice goes where: the first frame carries slice 0, the
+        # CONTINUATIONs the slices from 1 on, one each, in order
+        blocks = budget.block_comps(p)
+        fw = [e for e in p.events if e.kind == 'write' and e.attr == 'data'
+              and e.base == ('p', 'first_frame')]
+        first = fw[-1].value if fw else None
+        B = None
+
+        def is_blocks(t):
+            # the list of slices, or `<that> or [b'']`
+            return t in blocks or (
+                t[0] == 'or' and len(t[1]) == 2 and t[1][0] in blocks and
+                t[1][1][0] == 'obj')
+        if blocks:
+            if first == T.C(b''):
+                pass        # the empty block: one frame, nothing follows
+            elif first is not None and first[0] == 'sub' and \
+                    first[2] == T.C(0) and is_blocks(first[1]):
+                B = first[1]
+            else:
+                bad.append('the first frame does not carry the first slice '
+                           'of the block (found %s)' % (
+                               cm.show0(first)[:60] if first else 'no data'))
         for x in el[1:]:
             if x[0] == 'splat' and x[1][0] == 'comp':
                 x = x[1][1]     # extend(<frame> for block in ...)
             f = p.state.objs.get(x, {})
+            if blocks:
+                d = f.get('data')
+                it = d[2] if d is not None and d[0] == 'lv' and \
+                    len(d) == 3 else None
+                if B is not None and it != ('slice', B, T.C(1), None):
+                    bad.append('a CONTINUATION does not carry the next slice '
+                               'of the block (data %s)' % (
+                                   cm.show0(d)[:60] if d else 'not set'))
+                elif B is None and (it is None or it[0] != 'obj'):
+                    bad.append('a CONTINUATION after an empty block')
             if not cm.is_self_attr(f.get('stream_id'), 'stream_id'):
                 bad.append('a CONTINUATION is on another stream id')
             if f.get('flags', ('set', frozenset()))[1] - {
@@ -188,29 +221,29 @@ def run(ctx, eng):
     I = flow.stream_inliner(eng)
     check_priority_frame_fields(ctx, eng)
     fr = m.func(H + 'reset_stream')
-    ok = False
+    ok = cm.Every()
     for p in cm.normal_paths(I.run(fr)):
         news = [e for e in p.events if e.kind == 'new' and
                 e.cls == 'RstStreamFrame']
         if len(news) == 1:
             f = p.state.objs.get(news[0].obj, {})
             sid = f.get('stream_id')
-            ok = f.get('error_code') == ('p', 'error_code') and \
-                sid is not None and sid[0] == 'a' and \
-                sid[2] == 'stream_id' and sid[1][0] == 'call' and \
-                sid[1][2][-1] == ('p', 'stream_id')
+            ok(f.get('error_code') == ('p', 'error_code') and
+               sid is not None and sid[0] == 'a' and
+               sid[2] == 'stream_id' and sid[1][0] == 'call' and
+               sid[1][2][-1] == ('p', 'stream_id'))
     ctx.ob('FLOW.contract', fr.qual, 'RST_STREAM(stream_id){error_code}', ok,
            'the stream looked up by stream_id resets itself with error_code',
            node=fr.node)
     fe = m.func(H + 'end_stream')
-    ok = False
+    ok = cm.Every()
     for p in cm.normal_paths(I.run(fe)):
         news = [e for e in p.events if e.kind == 'new' and
                 e.cls == 'DataFrame']
         if len(news) == 1:
             f = p.state.objs.get(news[0].obj, {})
-            ok = f.get('flags') == ('set', frozenset([T.C('END_STREAM')])) \
-                and 'data' not in f
+            ok(f.get('flags') == ('set', frozenset([T.C('END_STREAM')]))
+               and 'data' not in f)
     ctx.ob('FLOW.contract', fe.qual, 'empty DATA with END_STREAM', ok,
            'DataFrame(stream id){END_STREAM}', node=fe.node)
     fd = m.func(H + 'send_data')
@@ -305,15 +338,16 @@ def run(ctx, eng):
            allowed, 'written by %s' % sorted(w.split('.')[-1]
                                              for w in writers))
     fp = m.func(H + '_prepare_for_sending')
-    ok = False
+    ok = cm.Every()
     for p in cm.normal_paths(eng.I.run(fp)):
         ws = [e for e in p.events if e.kind == 'write' and
               e.attr == '_data_to_send']
         if ws:
             op = ws[0].operand
-            ok = ws[0].aug == '+' and op is not None and op[0] == 'call' \
-                and op[1] == '.join' and op[2][0] == T.C(b'') and \
-                op[2][1][0] == 'comp' and op[2][1][2] == ('p', 'frames')
+            ok(len(ws) == 1 and
+               ws[0].aug == '+' and op is not None and op[0] == 'call'
+               and op[1] == '.join' and op[2][0] == T.C(b'') and
+               op[2][1][0] == 'comp' and op[2][1][2] == ('p', 'frames'))
     ctx.ob('FLOW.emit', fp.qual, 'frames serialised in list order', ok,
            'b"".join(f.serialize() for f in frames) appended', node=fp.node)
     # update_settings: the frame carries exactly the settings asked for, and
